@@ -9,7 +9,9 @@ from collections import defaultdict
 
 
 class Graph:
-    def __init__(self, path, stimuli):
+    def __init__(self, path, stimuli, canon=None):
+        if canon:
+            self.canon = canon
         self.stim = set(stimuli)
         self.int_succ = defaultdict(set)
         self.stim_succ = defaultdict(lambda: defaultdict(set))   # s -> (a, r) -> {t}
@@ -109,9 +111,9 @@ class Graph:
         cur = self.start()
         for i, (st, ob) in enumerate(zip(script, observations)):
             nx = self.step(cur, tuple(st))
-            allowed = {self.obs.get(s, ((), (), False)) for s in nx}
+            allowed = {self.obs.get(s) for s in nx}
             got = self.canon(ob)
-            cur = frozenset(s for s in nx if self.obs.get(s, ((), (), False)) == got)
+            cur = frozenset(s for s in nx if self.obs.get(s) == got)
             if not cur:
-                return False, i, sorted(allowed)
+                return False, i, sorted(allowed, key=str)
         return True, -1, None
